@@ -110,6 +110,7 @@ class Builder:
         tr = Translator(self.db, tm, fns=fns, loops=loops, ghosts=ghosts, opaque=u.opaque,
                         lib=u.lib, records=u.records)
         tr.ctor_decls = {cn: d for cn, d in decls.items() if d['kind'] == 'CXXConstructorDecl'}
+        tr.instantiate = list(u.instantiate)
         tr.lib_rx = [(re.compile(k[1:]), v) for k, v in u.lib.items() if k.startswith('~')]
         for g in u.globals:
             self.b_globals = getattr(self, 'b_globals', {})
@@ -491,7 +492,7 @@ class Builder:
                 else:
                     replaced = [c for c in contracted if c != cn and c not in fs.inline]
                 h = self.enforce(cn, mode)
-                self.extra_defs = ['#define VERIF_ENFORCING_%s 1' % cn]
+                self.extra_defs = ['#define VERIF_ENFORCING_%s 1' % cn] + (['#define VERIF_TABLES_UF 1'] if 'uf_tables' in fs.opts else [])
                 p = self.unit_file('%s_%s' % (cn, mode), mode, [cn], replaced, h, cn)
                 self.extra_defs = []
                 fl = list(u.flags) + (fs.opts.get('flags', '').replace(',', ' ').split() if fs.opts.get('flags') else [])
